@@ -47,7 +47,7 @@ class Ctx:
         self.idx = env.impl_index(self.mir)
         self.enums = env.source_enums()
 
-    def ex(self, K=4):
+    def ex(self, K=8):
         e = Executor(self.mir, self.enums, K=K)
         e.impl_index = self.idx
         stdmodels.install_core(e)
@@ -357,6 +357,8 @@ def step_obligation(ob, ty, op):
                                 "window %s then %s" % (win, ops[-1]))
             if r["confirmed"]:
                 return r
+        if model_unused is None:
+            return confirm_stress(R, "%s/%s" % (oidp, name), ty, 300, 0, 255)
         n_ = model_int(model_unused, w["n"])
         return confirm_stress(R, "%s/%s" % (oidp, name), ty, n_, model_int(model_unused, w["o"]), model_int(model_unused, x))
 
@@ -386,6 +388,8 @@ def digest_obligation(ob, ty):
     ex.exit_guards.append(st.guard)
 
     def witness(name, neg, model):
+        if model is None:
+            return {"confirmed": False, "detail": "no model"}
         return {"confirmed": False, "detail": "digest/len accessor disagrees with the invariant-derived value; "
                                               "n=%s A=%s B=%s" % (model_int(model, w["n"]), model_int(model, A), model_int(model, B))}
 
@@ -405,6 +409,32 @@ def digest_obligation(ob, ty):
             runs = [r for r in runs if r[0] > 0]
             return confirm_history(R, "C17/%s::digest/%s" % (ty, name), ty, [["new", {"runs": runs}]],
                                    runs_to_bytes(runs), "new(%s).digest()" % runs)
+        # a state that is only reached after slides: new(o . runs); roll(o, x); digest
+        ex3 = ctx.ex()
+        w3 = runlen_window(ex3, lead=True, nmax=4096)
+        x3 = ex3.fresh_int("x", lo=0, hi=255)
+        c3, extra3 = pre_state(ctx, ex3, ty, w3, consts)
+        st3 = State()
+        st3.frames[0] = {"c": c3}
+        ex3.exec_fn(ctx.fn(ex3, ty, "roll"), [VRef("place", 0, "c"), VInt(w3["o"], "u8"), VInt(x3, "u8")], st3)
+        d3 = ex3.exec_fn(ctx.fn(ex3, ty, "digest"), [VRef("place", 0, "c")], st3)
+        A3 = w3["Ar"] + x3
+        B3 = w3["Br"] + A3
+        neg3 = d3.t != (B3 % M_SPEC) * 65536 + (A3 % M_SPEC)
+        extra_c3 = [extra3["rolls"] == 0, extra3["a"] < M_SPEC, extra3["b"] < M_SPEC] if extra3 else []
+        s3, m3, _ = decide(ex3.assumes + extra_c3 + [st3.guard], neg3, ob.cap)
+        if s3 == "sat":
+            o_ = model_int(m3, w3["o"])
+            x_ = model_int(m3, x3)
+            runs = [[model_int(m3, k), model_int(m3, v)] for k, v in zip(w3["ks"], w3["vs"])]
+            runs = [r for r in runs if r[0] > 0]
+            r = confirm_history(R, "C17/%s::digest/%s" % (ty, name), ty, [["new", {"runs": [[1, o_]] + runs}], ["roll", o_, x_]],
+                                runs_to_bytes(runs) + [x_], "new(%s); roll(%d,%d); digest()" % ([[1, o_]] + runs, o_, x_))
+            if r["confirmed"]:
+                return r
+        r = confirm_stress(R, "C17/%s::digest/%s" % (ty, name), ty, max(1, model_int(model, w["n"])) if model is not None else 64, 0, 255)
+        if r["confirmed"]:
+            return r
         return witness(name, neg, model)
 
     ob.prove(ex, goals, "C17/%s::digest" % ty, "any state satisfying the invariant; window 0..65536; full width", fns, witness_native)
